@@ -16,7 +16,7 @@ func init() {
 	commands["mapper-run"] = mapperRun
 }
 
-var qsym = map[byte]string{'a': "a", 'n': "n", 't': "t", 'Q': `"`, 'S': "'", 'B': "`", 'K': `\`, 'N': "\n", 'E': "é", 'G': "\a", 'T': "\t", 'R': "\uFFFD"}
+var qsym = map[byte]string{'a': "a", 'n': "n", 't': "t", 'Q': `"`, 'S': "'", 'B': "`", 'K': `\`, 'N': "\n", 'E': "é", 'G': "\a", 'T': "\t", 'R': "\uFFFD", 'F': "/"}
 
 func qrender(s string) string {
 	var sb strings.Builder
